@@ -1,8 +1,8 @@
 package endorse
 
 import (
-	"io"
 	"context"
+	"io"
 
 	"encoding/hex"
 	"time"
